@@ -61,12 +61,33 @@ Fixpoint map_res {A B} (f : A -> result B) (l : list A) : result (list B) :=
 
 (* the chunk at `start` of the file; pkg = the package id (high byte of the resource ids) *)
 Record type_chunk := { t_id : Z; t_flags : Z; t_count : Z; t_entries : list entry }.
+(* ARSCResTableConfig(buff): how many bytes the constructor consumes.  size, imsi, locale, screenType are always unpacked;
+   the further 32-bit fields when size reaches them (unpack: struct.error on a short read); localeScript and localeVariant
+   are plain read(4) / read(8) (a short read is accepted) - note that a size of 44..51 makes it read 8 bytes for the
+   variant, beyond the declared size; what is left of the declared size is skipped *)
+Definition strict_field (n : Z) (st : result (Z * Z)) : result (Z * Z) :=          (* (consumed, remaining) *)
+  do ' (c, r) <- st; if r <? n then Err StructError else Ok (c + n, r - n).
+Definition lenient_field (n : Z) (st : result (Z * Z)) : result (Z * Z) :=
+  do ' (c, r) <- st; let k := Z.min n r in Ok (c + k, r - k).
+Definition config_len (l : list Z) : result Z :=
+  do ' (size, _) <- u32 l;
+  let when (b : bool) (f : result (Z * Z) -> result (Z * Z)) (st : result (Z * Z)) := if b then f st else st in
+  let st0 : result (Z * Z) := Ok (0, len l) in
+  let st := strict_field 4 (strict_field 4 (strict_field 4 (strict_field 4 st0))) in
+  let st := when (20 <=? size) (strict_field 4) st in let st := when (24 <=? size) (strict_field 4) st in
+  let st := when (28 <=? size) (strict_field 4) st in let st := when (32 <=? size) (strict_field 4) st in
+  let st := when (36 <=? size) (strict_field 4) st in let st := when (40 <=? size) (lenient_field 4) st in
+  let st := when (44 <=? size) (lenient_field 8) st in let st := when (52 <=? size) (strict_field 4) st in
+  do ' (c, r) <- st;
+  Ok (if 0 <? size - c then c + Z.min (size - c) r else c).
 Definition parse_type_chunk (buf : list Z) (start pkg : Z) : result type_chunk :=
   let h := at_ buf start in
   do ' (_, h1) <- u16 h; do ' (hs, h2) <- u16 h1; do ' (size, h3) <- u32 h2;
-  do ' (tid, h4) <- u8 h3; do ' (flags, h5) <- u8 h4; do ' (_, h6) <- u16 h5; do ' (count, h7) <- u32 h6; do ' (estart, _) <- u32 h7;
+  do ' (tid, h4) <- u8 h3; do ' (flags, h5) <- u8 h4; do ' (_, h6) <- u16 h5; do ' (count, h7) <- u32 h6; do ' (estart, h8) <- u32 h7;
   let resbase := pkg * 16777216 + tid * 65536 in
-  do offs <- read_offsets (length buf) flags 0 count resbase (at_ buf (start + hs));
+  do clen <- config_len h8;
+  (* the offset array is read where the configuration ended - for a well-formed chunk that is start + header size *)
+  do offs <- read_offsets (length buf) flags 0 count resbase (at_ buf (start + 20 + clen));
   do es <- map_res (fun p => parse_entry buf (start + estart + fst p) (start + size) (snd p)) offs;
   Ok {| t_id := tid; t_flags := flags; t_count := count; t_entries := es |}.
 
